@@ -1061,7 +1061,7 @@ func firstLines(s string, n int) string {
 func runLedger(t *testing.T, prop string) {
 	seed := envInt("VERIF_SEED", 1)
 	col := NewCollector(prop, seed)
-	n := 64
+	n := 128
 	if tier() == "thorough" {
 		n = 1200
 	}
